@@ -1,6 +1,6 @@
 (* Properties_C14.v — the theorems that decide property C14 on the model, each stated in full and closed by
    `exact <lemma>`; the lemmas live in the Proofs_*.v files.  Nothing else belongs in this file. *)
-From Theo Require Import Base Regex Tokens Lexer Errors Scan SpecLex Gen_Lexer LexStatements Proofs_Lexer Proofs_Scan.
+From Theo Require Import Base Regex Tokens Lexer Errors Scan SpecLex Gen_Lexer LexStatements Proofs_Lexer Proofs_Scan Proofs_LexRules.
 Local Open Scope nat_scope.
 
 
